@@ -20,7 +20,7 @@ RULE = ("case = (configuration, wrapper, history seed) or an end-to-end adjoint 
 ASSUMPTIONS = ["bit-identity is demanded for identical (ta, tb) floats and identical flags; W must also agree "
                "bitwise between different flag combinations of the same interval"]
 REQUIRED_COUNTERS = ["repeats", "repeats_after_eviction", "repeats_after_refinement", "repeats_recomputed",
-                     "adjoint_matched_queries", "repeats_with_A", "repeats_cache0"]
+                     "adjoint_matched_queries", "repeats_with_A", "repeats_cache0", "point_repeats"]
 CASE_TIMEOUT = 900
 
 
@@ -92,20 +92,38 @@ def run_object(case):
                                                f"first={tp.n_evict - ev0}, refinements since first="
                                                f"{tp.n_dep_tree - rf0} cfg={cfg}"})
             else:
-                shadow[key] = (out, tp.n_evict, tp.n_dep_tree)
+                # (snapshots: a library that later mutates a tensor it has handed out must not drag the shadow along)
+                shadow[key] = (tuple(None if x is None else x.clone() for x in out), tp.n_evict, tp.n_dep_tree)
             # W agrees across flag combinations
             wkey = (qa, qb)
             prev = shadow.get(wkey)
             if prev is None:
-                shadow[wkey] = out[0]
+                shadow[wkey] = out[0].clone()
             elif not torch.equal(prev, out[0]):
                 viol.append({"mechanism": f"W_depends_on_flags:{cfg['wrapper']}", "detail": f"({qa},{qb}) {fl}"})
             return out
 
+        def ask_point(t):
+            """Point evaluation bm(t) (interval / path / tree): repeatable too, and it must not disturb anything."""
+            out = bm(t).clone()
+            key = ("point", t)
+            cnt["point_queries"] = cnt.get("point_queries", 0) + 1
+            if key in shadow:
+                cnt["point_repeats"] = cnt.get("point_repeats", 0) + 1
+                if not torch.equal(out, shadow[key]):
+                    viol.append({"mechanism": f"repeat_differs:point:{cfg['wrapper']}",
+                                 "detail": f"bm({t!r}) max diff {float((out - shadow[key]).abs().max()):.3e} cfg={cfg}"})
+            else:
+                shadow[key] = out
+
+        points_ok = cfg["wrapper"] in ("interval", "path", "tree")
+        point_times = [bmgen.pick_time(cfg, rng, 0.6) for _ in range(4)]
         marked = []
         for j, (a, b) in enumerate(qs):
             fl = fl_all[0] if rng.random() < 0.8 else rng.choice(fl_all)
             ask(a, b, fl)
+            if points_ok and rng.random() < 0.08:
+                ask_point(rng.choice(point_times))
             if rng.random() < 0.15:
                 marked.append((a, b, fl))
             if marked and rng.random() < 0.1:
@@ -113,9 +131,15 @@ def run_object(case):
         # final pass: everything seen so far again, shuffled
         again = [(k[0], k[1], dict(return_U=k[2], return_A=k[3])) for k in shadow if len(k) == 4]
         rng.shuffle(again)
+        if points_ok:
+            for t in point_times:
+                ask_point(t)
         for (qa, qb, fl) in again[:150]:
             a, b = bmgen.to_frame(cfg, qa, qb)  # involution
             ask(a, b, fl)
+        if points_ok:
+            for t in point_times:
+                ask_point(t)
     if tp.cache_overflow:
         viol.append({"mechanism": "cache_overflow", "detail": str(tp.cache_overflow[:3])})
     cnt["queries"] = len(qs)
